@@ -109,14 +109,15 @@ def _sim_history(c, K, recount=True, coherence=False):
     else:
         fl, (client,), (strategy,) = cm.new_sim(strategy_kwargs=dict(multi_order_trades=multi, max_live_trade_count=max_l, max_trade_count=3))
     mw = fl._market_middleware[0]
-    bk = cm.book([cm.runner(1, atb=[{"price": 1.5, "size": 100.0}], atl=[{"price": 4.0, "size": 100.0}]), cm.runner(2)], version=7)
+    hcap = c.choose("handicap", [0, -1.5])  # (a handicap / line-market runner is a different runner context)
+    bk = cm.book([cm.runner(1, handicap=hcap, atb=[{"price": 1.5, "size": 100.0}], atl=[{"price": 4.0, "size": 100.0}]), cm.runner(2)], version=7)
     market = cm.add_market(fl, bk)
     mw(market)
     placed, trades = [], []
     if c.choose("start_with_resting_order", [False, True]):
         # history prefix summarised: one order of an earlier trade already rests executable at the exchange
         o0, _ = ss.resting_limit(c, "seed", fl, market, strategy, 90, status=S.EXECUTABLE, price=2.0, persistence="LAPSE", max_frags=0,
-                                 allow_cancelled=False, side="BACK", client=client)
+                                 allow_cancelled=False, side="BACK", client=client, handicap=hcap)
         c.assume(o0.order_type.size >= 2)
         c.assume(o0.order_type.size <= 100)
         placed.append(o0)
@@ -124,7 +125,9 @@ def _sim_history(c, K, recount=True, coherence=False):
     rec = lc.Recorder()
     with rec:
         for k in range(K):
-            act = c.choose("action%d" % k, ["place-new-trade", "place-same-trade", "place-in-with-trade", "process-packages", "fill-all", "cancel-all",
+            t_before = _dt.datetime.utcnow()
+            n_tr_log = len(rec.trades)
+            act = c.choose("action%d" % k, ["place-new-trade", "place-same-trade", "place-in-with-trade", "process-packages", "fill-all", "fill-first", "cancel-all",
                                             "suspend-lapse", "remove-runner"] + (["replace-all"] if coherence else []))
             c.tag("a%d" % k, act)
             with c.guard("step%d:%s" % (k, act)):
@@ -132,7 +135,7 @@ def _sim_history(c, K, recount=True, coherence=False):
                     if act == "place-same-trade" and trades:
                         tr = trades[-1]
                     else:
-                        tr = Trade(cm.MID, 1, 0, strategy)
+                        tr = Trade(cm.MID, 1, hcap, strategy)
                     o = tr.create_order("BACK", cm.LimitOrder(2.0, 5.0))
                     if act == "place-in-with-trade":
                         with tr:
@@ -148,7 +151,8 @@ def _sim_history(c, K, recount=True, coherence=False):
                         if tr not in trades:
                             trades.append(tr)
                         c.cover("placed")
-                        rc = strategy.get_runner_context(cm.MID, 1, 0)
+                        rc = strategy.get_runner_context(cm.MID, 1, hcap)
+                        c.ob("step%d.placement-starts-the-place-cool-down" % k, rc.datetime_last_placed is not None and rc.datetime_last_placed >= t_before)
                         c.ob("step%d.live-trades<=max" % k, len(rc.live_trades) <= max_l, live=len(rc.live_trades))
                         c.ob("step%d.trades<=max" % k, len(rc.trades) <= 3)
                     else:
@@ -156,8 +160,8 @@ def _sim_history(c, K, recount=True, coherence=False):
                 elif act == "process-packages":
                     while fl.handler_queue:
                         client.execution.handler(fl.handler_queue.pop(0))
-                elif act == "fill-all":
-                    for o in list(market.blotter.live_orders):
+                elif act in ("fill-all", "fill-first"):
+                    for o in list(market.blotter.live_orders)[:1 if act == "fill-first" else None]:
                         if o.status in (S.EXECUTABLE, S.CANCELLING, S.UPDATING, S.REPLACING):
                             sim = o.simulated
                             sim.matched = sim.matched + [[cm.T0_MS, o.order_type.price, sim.size_remaining]]
@@ -172,16 +176,21 @@ def _sim_history(c, K, recount=True, coherence=False):
                         if o.status == S.EXECUTABLE:
                             market.replace_order(o, [2.5, 2.6, 2.7, 2.8, 2.9][k])
                 elif act == "suspend-lapse":
-                    b2 = cm.book([cm.runner(1), cm.runner(2)], version=8 + k, status="SUSPENDED", pt_ms=cm.T0_MS + 1000 * (k + 1))
+                    b2 = cm.book([cm.runner(1, handicap=hcap), cm.runner(2)], version=8 + k, status="SUSPENDED", pt_ms=cm.T0_MS + 1000 * (k + 1))
                     market(b2); mw(market)
-                    b3 = cm.book([cm.runner(1, atb=[{"price": 1.5, "size": 100.0}], atl=[{"price": 4.0, "size": 100.0}]), cm.runner(2)], version=8 + k, pt_ms=cm.T0_MS + 1000 * (k + 1) + 1)
+                    b3 = cm.book([cm.runner(1, handicap=hcap, atb=[{"price": 1.5, "size": 100.0}], atl=[{"price": 4.0, "size": 100.0}]), cm.runner(2)], version=8 + k, pt_ms=cm.T0_MS + 1000 * (k + 1) + 1)
                     market(b3); mw(market)
                 else:
-                    b2 = cm.book([cm.runner(1, status="REMOVED", adjustment_factor=10.0), cm.runner(2)], version=20 + k, pt_ms=cm.T0_MS + 1000 * (k + 1))
+                    b2 = cm.book([cm.runner(1, handicap=hcap, status="REMOVED", adjustment_factor=10.0), cm.runner(2)], version=20 + k, pt_ms=cm.T0_MS + 1000 * (k + 1))
                     market(b2); mw(market)
                 fl._process_simulated_orders(market)
             if recount:
                 lc.recount_runner_context(c, strategy, market, tag="step%d" % k)
+                if any(new == lc.TradeStatus.COMPLETE for (_t, _old, new) in rec.trades[n_tr_log:]):
+                    rc = strategy.get_runner_context(cm.MID, 1, hcap)
+                    c.ob("step%d.completed-trade-starts-the-reset-cool-down" % k, rc.datetime_last_reset is not None and rc.datetime_last_reset >= t_before,
+                         live=len(rc.live_trades))
+                    c.cover("trade-completed")
             if coherence:
                 lc.blotter_coherence(c, market, list(market.blotter), tag="step%d" % k)
                 for o in placed:
@@ -192,9 +201,9 @@ def _sim_history(c, K, recount=True, coherence=False):
                          client=getattr(o.client, "username", None))
     # not locked out: all orders complete => a fresh trade is accepted again (no cool-down configured)
     if recount and placed and all(o.complete for o in market.blotter):
-        rc = strategy.get_runner_context(cm.MID, 1, 0)
+        rc = strategy.get_runner_context(cm.MID, 1, hcap)
         if len(rc.trades) < 3:
-            probe = Trade(cm.MID, 1, 0, strategy).create_order("BACK", cm.LimitOrder(2.0, 5.0))
+            probe = Trade(cm.MID, 1, hcap, strategy).create_order("BACK", cm.LimitOrder(2.0, 5.0))
             c.ob("not-locked-out-after-all-complete", strategy.validate_order(rc, probe) is True, live=len(rc.live_trades))
             c.cover("all-complete")
     return rec, market, strategy
@@ -290,7 +299,7 @@ HARNESSES = [
     Harness("H10a", h10a, pattern="P1 kernel-with-oracle", clock_modules=("flumine.strategy.runnercontext",), requires=["accepted", "refused"]),
     Harness("H10b-sim", h10b_sim2, quick=dict(n=2), pattern="P2 inductive step", requires=["handled"]),
     Harness("H10b-live", h10b_live, quick=dict(n=1), thorough=dict(n=2), pattern="P5 + recount", requires=["handled"], max_paths=(300000, 3000000)),
-    Harness("H10c", h10c, quick=dict(K=3), thorough=dict(K=4), pattern="P3 bounded history", requires=["placed", "refused", "filled", "all-complete"],
+    Harness("H10c", h10c, quick=dict(K=3), thorough=dict(K=4), pattern="P3 bounded history", requires=["placed", "refused", "filled", "all-complete", "trade-completed"],
             max_paths=(300000, 3000000), wall_s=(300, 3000)),
 ]
 META = {"assumptions": ["trades explicitly flagged pending_orders are outside (property)"]}
